@@ -29,37 +29,50 @@ def cval(t):
     return None
 
 
-def is_abs_of(t, leaf):
+class Narrowed(Exception):
+    pass
+
+
+def is_abs_of(t, leaf, T=None):
+    """Is t the magnitude |value| itself (possibly *widened*)?  A copy narrowed to a type with fewer significand
+    bits than T is a different number: deciding the notation on it is a violation (raises Narrowed)."""
     while isinstance(t, tuple) and t and t[0] == "cast":
+        if T is not None and t[1] in MANT and MANT[t[1]] < MANT[T]:
+            inner = t[2]
+            while isinstance(inner, tuple) and inner and inner[0] == "cast":
+                inner = inner[2]
+            if isinstance(inner, tuple) and inner[:2] == ("fn", "abs"):
+                raise Narrowed("the notation is chosen from |value| narrowed to %s: %s values within half a %s ulp of an interval boundary "
+                               "get the wrong notation/precision, and values too small for %s print as 0" % (t[1], T, t[1], t[1]))
         t = t[2]
     return isinstance(t, tuple) and t[:2] == ("fn", "abs") and t[2] == leaf
 
 
-def walk_tree(t, leaf, lo, hi, point, out):
+def walk_tree(t, leaf, lo, hi, point, out, T=None):
     """t: gamma tree whose leaves are Arr of stream insertions. Intervals are [lo, hi) over |value|."""
     if isinstance(t, tuple) and t and t[0] == "g":
         c = t[1]
         neg = False
         while isinstance(c, tuple) and c[0] == "not":
             c, neg = c[1], not neg
-        if not (isinstance(c, tuple) and c[0] == "cmp" and is_abs_of(c[2], leaf) and cval(c[3]) is not None):
+        if not (isinstance(c, tuple) and c[0] == "cmp" and is_abs_of(c[2], leaf, T) and cval(c[3]) is not None):
             raise ev.Inconclusive("Print branches on %s (expected comparisons of |value| with constants)" % ev.show(t[1])[:120])
         op, k = c[1], cval(c[3])
         a, b = (t[3], t[2]) if neg else (t[2], t[3])   # a: branch where the comparison is true
         if op == "<":
-            walk_tree(a, leaf, lo, min(hi, k), point, out)
-            walk_tree(b, leaf, max(lo, k), hi, point, out)
+            walk_tree(a, leaf, lo, min(hi, k), point, out, T)
+            walk_tree(b, leaf, max(lo, k), hi, point, out, T)
         elif op == ">=":
-            walk_tree(a, leaf, max(lo, k), hi, point, out)
-            walk_tree(b, leaf, lo, min(hi, k), point, out)
+            walk_tree(a, leaf, max(lo, k), hi, point, out, T)
+            walk_tree(b, leaf, lo, min(hi, k), point, out, T)
         elif op == "==":
             if not (lo <= k < hi):
                 raise ev.Inconclusive("equality test outside the current interval")
-            walk_tree(a, leaf, k, k, True, out)
+            walk_tree(a, leaf, k, k, True, out, T)
             # the remaining part: (lo, hi) without k; only k == lo is expressible as an interval
             if k != lo:
                 raise ev.Inconclusive("equality test in the interior of an interval")
-            walk_tree(b, leaf, lo, hi, "open-lo", out)
+            walk_tree(b, leaf, lo, hi, "open-lo", out, T)
         else:
             raise ev.Inconclusive("Print compares |value| with operator " + op)
         return
@@ -99,7 +112,11 @@ def check_print_number(chk, F, T):
         r = E.rv(res)
         leaf = ("leaf", "value")
         leaves = []
-        walk_tree(r, leaf, Fraction(0), INF, False, leaves)
+        try:
+            walk_tree(r, leaf, Fraction(0), INF, False, leaves, T)
+        except Narrowed as x:
+            chk.violated("R1", inst, str(x), loc)
+            return
         md = max_digits10(T)
         bad = []
         covered_zero = False
